@@ -176,7 +176,8 @@ class SArr:
     def astype(self, dtype, copy=True):
         if not copy and real_np.dtype(dtype) == self.dtype:
             return self
-        return SArr(list(self.elems), dtype, self.item_shape)
+        return SArr([_wrap_int(x, dtype) for x in self.elems], dtype,
+                    self.item_shape)
 
     def tolist(self):
         return list(self.elems)
@@ -505,6 +506,23 @@ class SArr:
 
 
 # -------------------------------------------------------------- helpers
+def _wrap_int(x, dtype):
+    """C-style wrap-around when an integer is cast to a NARROW integer type
+    (8/16/32 bit); 64-bit targets and non-integers are left alone"""
+    try:
+        dt = real_np.dtype(dtype)
+    except TypeError:
+        return x
+    if dt.kind not in "iu" or dt.itemsize >= 8 or not isinstance(x, SInt):
+        return x
+    bits = 8 * dt.itemsize
+    m = 2 ** bits
+    if dt.kind == "u":
+        return SInt(x.e % m)
+    half = 2 ** (bits - 1)
+    return SInt((x.e + half) % m - half)
+
+
 def _ndim(v):
     if isinstance(v, SArr):
         return v.ndim
@@ -864,9 +882,16 @@ class SymNP:
 
     @staticmethod
     def isinf(a):
+        # +-inf is normally folded into the "invalid" (NaN) class; a harness
+        # that needs the distinction attaches a z3 Bool `inf` to its values
+        def one(x):
+            f = getattr(x, "inf", None)
+            return SBool(f) if f is not None else False
+        if hasattr(a, "__symarray__"):
+            a = a.__symarray__()
         if isinstance(a, SArr):
-            return a._map(lambda x: False, bool)
-        return False
+            return a._map(one, bool)
+        return one(a)
 
     @staticmethod
     def sum(a, **kw):
@@ -1201,12 +1226,25 @@ class SMat:
                                      "shape (%d,) into shape (%d,)" % (
                                          len(vals), len(rs)))
                 for i, v in zip(rs, vals):
-                    self.rows[i][c] = v
+                    self.rows[i][c] = self._cast(v)
                 return
             if not isinstance(rs, list) and not isinstance(c, slice):
-                self.rows[rs][_conc_int(c)] = val
+                self.rows[rs][_conc_int(c)] = self._cast(val)
                 return
         raise NotModelled("SMat assignment %r" % (idx,))
+
+    def _cast(self, v):
+        """numpy casts on assignment: a real stored into an integer matrix
+        is truncated towards zero"""
+        try:
+            kind = real_np.dtype(self.dtype).kind
+        except TypeError:
+            return v
+        if kind in "iu" and isinstance(v, (SReal, SFloat, float)):
+            from .symx import toreal
+            e = toreal(SFloat.lift(v).v if isinstance(v, SFloat) else v)
+            return SInt(z3.If(e >= 0, z3.ToInt(e), -z3.ToInt(-e)))
+        return v
 
     def __array__(self, *a, **k):
         raise NotModelled("conversion of a symbolic matrix to real numpy")
